@@ -20,7 +20,7 @@ from core.loader import AnalysisError, FuncInfo, Repo, ancestors, norm, own_node
 from core.report import Result
 
 from .c05_views import family, all_nodes, assignments_of, dview, key_of, productions, single_value, where_of
-from .common import guard_formula, stmt_of, types_of, where
+from .common import guard_formula, reachable_funcs, stmt_of, types_of, where
 
 MATCHER = "pytestarch.rule_assessment.rule_check.rule_matcher"
 LAYER_DETECTOR = "pytestarch.rule_assessment.rule_check.layer_rule_violation_detector"
@@ -152,7 +152,25 @@ def check_layer_mapping_update(repo: Repo, res: Result) -> None:
             seeds[(m.fq, m.param_names[1])] = {"MAP"}
     seeds[(factory.fq, mp)] = {"MAP"}
 
+    holder: list = []
+
     def transfer(f, call, names_, args, recv, kwargs):
+        fq_ = repo.resolve_name(f.module, call.func) if isinstance(call.func, (ast.Name, ast.Attribute)) else None
+        if fq_ == "functools.partial" and call.args and holder:
+            # partial(helper, conversion=mapping): the helper's parameters receive the bound arguments; the callable itself
+            # carries no data
+            try:
+                ft = T.expr(f, call.args[0])
+            except Exception:  # noqa: BLE001
+                ft = None
+            from core.types import members as _members
+
+            for m_ in (_members(ft) if ft is not None else []):
+                if m_[0] == "fn":
+                    holder[0]._bind_call(m_[1], args[1:], kwargs, None, None)
+            return set()
+        if isinstance(call.func, ast.Name) and call.func.id in ("map", "filter", "starmap") and not names_:
+            return set()
         # results of reading the map are module lists, not the map
         if isinstance(call.func, ast.Attribute) and call.func.attr in ("get", "pop", "setdefault", "keys", "values", "items", "copy") and "MAP" in recv:
             return {"MAP"} if call.func.attr == "copy" else set()
@@ -160,10 +178,13 @@ def check_layer_mapping_update(repo: Repo, res: Result) -> None:
             return {"MAP", "TOTAL"} if call.func.id == "defaultdict" else {"MAP"}
         return None
 
+    reach = {g.fq for g in reachable_funcs(repo, [factory], byname=False)}
     flow = Flow(repo, T, Spec(transfer=transfer, param_seeds=seeds, iter_map={"MAP": "", "TOTAL": ""}, objects_carry=False, scope=lambda f: f.module.name.startswith(("pytestarch.rule_assessment", "pytestarch.eval_structure.utils", "pytestarch.utils"))))
+    holder.append(flow)
+    flow._run()
     n = 0
     for f in repo.all_functions():
-        if isinstance(f.node, ast.Lambda) or not f.module.name.startswith(("pytestarch.rule_assessment", "pytestarch.eval_structure.utils", "pytestarch.utils")):
+        if isinstance(f.node, ast.Lambda) or f.fq not in reach:
             continue
         for node in own_nodes(f.node):
             if isinstance(node, ast.Subscript) and isinstance(node.ctx, ast.Load) and "MAP" in flow.tags(node.value):
